@@ -1,6 +1,7 @@
 import TonicModel.Model.Reconnect
 import TonicModel.Spec.Reconnect
 import TonicModel.Lemmas.Reconnect
+import TonicModel.Lemmas.ReconnectErr
 /-
 C14 — A channel always answers and recovers when the peer comes back.
 Property theorems only; helper lemmas live in `Lemmas/Reconnect.lean`.
@@ -225,11 +226,69 @@ theorem C14_unit_spec (l : Bool) (env : List Ans) (ops : List UOp) :
 
 /-! ## the whole property on end-to-end fault scripts -/
 
-/-- Every way a connection attempt can fail is classified as a connect error, hence surfaces as
+/-! ### the class of a connection failure: `Status::from_error` over the source chain
+
+`ErrClass.fromError` models `Status::from_error(..).code()` on an error given as the list of nodes
+that walking `source()` visits (`ErrChain.Node`: what `downcast_ref` can tell apart). -/
+
+/-- `find_status_in_source_chain` looks through wrappers that mean nothing by themselves
+(`transport::Error`, `io::Error`, TLS errors, any user error type): any number of them in front of
+a chain does not change what is found. -/
+theorem C14_class_wrappers_transparent (pre rest : List ErrChain.Node)
+    (h : ∀ n ∈ pre, n.plain = true) :
+    ErrClass.findInChain (pre ++ rest) = ErrClass.findInChain rest :=
+  ErrClass.findInChain_plain_prefix pre rest h
+
+/-- A `ConnectError` anywhere under such wrappers is classified UNAVAILABLE **whatever its cause
+chain is** — any `io::ErrorKind`, a TLS error, a timeout, a boxed custom error, a nested `Status`
+(of any code), `TimeoutExpired`, another `ConnectError`, a `hyper`/`h2` error: `cause` is an
+arbitrary chain. -/
+theorem C14_connect_error_unavailable_whatever_cause (pre cause : List ErrChain.Node)
+    (h : ∀ n ∈ pre, n.plain = true) :
+    ErrClass.fromError (pre ++ .connectError :: cause) = unavailable :=
+  ErrClass.fromError_connect pre cause h
+
+/-- Every error a failed connection attempt can produce on the fixed tree — `transport::Error`
+around `MakeSendRequestService`'s `ConnectError` around (when the failure came from inside
+`Connector::call`) that one's `ConnectError` around ANY cause — is UNAVAILABLE. -/
+theorem C14_attempt_error_unavailable (inConnector : Bool) (cause : List ErrChain.Node) :
+    ErrClass.fromError (ErrClass.attemptChain true inConnector cause) = unavailable :=
+  ErrClass.fromError_attempt inConnector cause
+
+/-- The other arms, for completeness of the model's reading of `from_error`: a `Status` under
+plain wrappers keeps its code, `TimeoutExpired` is CANCELLED, nothing recognisable is UNKNOWN. -/
+theorem C14_class_other_arms (pre rest : List ErrChain.Node) (c : Nat)
+    (h : ∀ n ∈ pre, n.plain = true) :
+    ErrClass.fromError (pre ++ .status c :: rest) = c ∧
+    ErrClass.fromError (pre ++ .timeoutExpired :: rest) = 1 ∧
+    ErrClass.fromError pre = 2 :=
+  ⟨ErrClass.fromError_status pre rest c h, ErrClass.fromError_timeoutExpired pre rest h,
+    ErrClass.fromError_plain pre h⟩
+
+/-- For every chain, what the model answers satisfies the oracle's class clause (the predicate
+the check evaluates on the code the real `Status::from_error` returned): if the chain is that of
+a connection failure (`Spec.Reconnect.isConnectFailure`), the code is UNAVAILABLE. -/
+theorem C14_class_spec (chain : List ErrChain.Node) :
+    (Spec.Reconnect.classClauses chain (ErrClass.fromError chain)).all (·.2) = true :=
+  ErrClass.classClauses_hold chain
+
+/-- On the pinned tree (before `fix-C14-connect-error-class.patch`) the class of a failure raised
+outside `Connector::call` depended on its cause: a connect timeout or a handshake failure (plain
+causes) came out UNKNOWN. -/
+theorem C14_attempt_error_unfixed_fails :
+    ¬ (∀ (inConnector : Bool) (cause : List ErrChain.Node),
+        ErrClass.fromError (ErrClass.attemptChain false inConnector cause) = unavailable) := by
+  intro h
+  have := h false [.io .timedOut]
+  revert this
+  decide
+
+/-- Every way a connection attempt of the end-to-end scripts can fail (refused by the connector,
+HTTP/2 handshake on a dead transport, connect timeout) is, through the classification above,
 UNAVAILABLE (on the tree with `fix-C14-connect-error-class.patch`). -/
 theorem C14_connect_failures_are_unavailable (o : Outcome) :
     E2E.statusCode (E2E.classOf true o) = unavailable :=
-  E2E.statusCode_fixed o
+  ErrClass.fromError_attempt (o = .refuse) (E2E.causeOf o)
 
 /-- Headline: for EVERY fault script — any list of attempt outcomes, any list of calls and
 peer-drops of any length, lazy or eager — what the model lets a caller observe satisfies every
@@ -284,5 +343,18 @@ example : Spec.Reconnect.holds false [.accept, .refuse, .timeout, .deadPeer, .ac
     [.call, .die, .call, .call, .die, .call, .call]
     (E2E.run true false [.accept, .refuse, .timeout, .deadPeer, .accept]
       [.call, .die, .call, .call, .die, .call, .call]) = true := by decide
+
+-- the classification hypotheses are met by the chains the code really builds, with nasty causes
+example : ∀ n ∈ [ErrChain.Node.transport, .custom 3, .io .other], n.plain = true := by decide
+example : ErrClass.fromError [.transport, .connectError, .connectError, .io .notFound] = 14 := by decide
+example : ErrClass.fromError [.transport, .connectError, .custom 1, .status 5] = 14 := by decide
+example : ErrClass.fromError [.transport, .connectError, .timeoutExpired] = 14 := by decide
+-- and the model does tell classes apart where the code does
+example : ErrClass.fromError [.custom 1, .status 5] = 5 := by decide
+example : ErrClass.fromError [.transport, .hyper ⟨false, false⟩, .h2 (some 7)] = 14 := by decide
+example : ErrClass.fromError [.transport, .hyper ⟨false, false⟩, .io .brokenPipe] = 2 := by decide
+example : ErrClass.fromError [.h2 (some 8)] = 1 ∧ ErrClass.fromError [.custom 0, .h2 (some 8)] = 2 := by decide
+-- the oracle's class clause rejects NOT_FOUND for a connect error caused by io NotFound
+example : (Spec.Reconnect.classClauses [.transport, .connectError, .io .notFound] 5).all (·.2) = false := by decide
 
 end C14
